@@ -246,3 +246,25 @@ class RuleSet:
                        ["rustc's name resolution and type inference (facts are read from the compiler's own tables)",
                         "the cargo feature configurations analysed are the ones listed under coverage.configurations"] + self.assumptions,
                        self.not_decided)
+
+
+class KeyFilter:
+    """A Report seen through a predicate on instance keys: a rule shared between two properties reports, under the second one,
+    only the instances that matter for it (everything else is evaluated but neither counted nor reported)."""
+    def __init__(self, rep, keep):
+        self._rep = rep
+        self._keep = keep
+
+    def __getattr__(self, name):
+        return getattr(self._rep, name)
+
+    def check(self, cond, key, detail="", loc=""):
+        return self._rep.check(cond, key, detail, loc) if self._keep(key) else bool(cond)
+
+    def bad(self, key, detail, loc=""):
+        if self._keep(key):
+            self._rep.bad(key, detail, loc)
+
+    def ok(self, key, detail="", loc=""):
+        if self._keep(key):
+            self._rep.ok(key, detail, loc)
